@@ -5,6 +5,7 @@ from . import accept, provenance, dyn
 def run(ctx):
     accept.rule_certificate_shapes(ctx)
     accept.rule_certificate_completion(ctx)
+    accept.rule_every_component_contributes(ctx)
     accept.rule_completion_semantics(ctx)
     accept.rule_no_shortcut_with_certificate(ctx)
     provenance.rule_argument_provenance(ctx)
